@@ -45,4 +45,12 @@ FIXED_BY_SUBJECT = {
    ('C08', 'a4 80 00 00 decoded into the NoValue placeholder instead of raising')],
  "fix: length field beyond addressable size leaked OverflowError": [
    ('C08', 'long-form length >= 2**63 leaked OverflowError from stream.read()')],
+ "fix: zero-length fragment of a constructed BIT STRING leaked IndexError": [
+   ('C08', '23 80 03 00 00 00 leaked IndexError')],
+ "fix: BIT STRING with unused bits but no data octets leaked ValueError": [
+   ('C08', '03 01 05 leaked ValueError (negative bit length)')],
+ "fix: excess components in an indefinite-length SEQUENCE leaked IndexError": [
+   ('C08', 'indefinite-length SEQUENCE with more components than declared leaked IndexError')],
+ "fix: empty explicitly tagged CHOICE in indefinite form returned a schema object": [
+   ('C08', '61 80 00 00 decoded with a tagged CHOICE type returned a valueless CHOICE')],
 }
